@@ -166,26 +166,20 @@ theorem nx_eq {α} (c : Cfg α) (hx : 1 ≤ c.dom.nelx) : c.nx = c.dom.nelx := s
 theorem ny_eq {α} (c : Cfg α) (hy : 1 ≤ c.dom.nely) : c.ny = c.dom.nely := sz_of_pos hy
 
 theorem sz_paddedSizeX {α} (c : Cfg α) (hx : 1 ≤ c.dom.nelx) : sz c.paddedSizeX = c.mx := by
-  unfold Cfg.paddedSizeX Cfg.mx Cfg.nx sz; omega
+  simp only [Cfg.paddedSizeX, Cfg.domainSize, Cfg.mx, Cfg.nx, sz]; omega
 
 theorem sz_paddedSizeY {α} (c : Cfg α) (hy : 1 ≤ c.dom.nely) : sz c.paddedSizeY = c.my := by
-  unfold Cfg.paddedSizeY Cfg.my Cfg.ny sz; omega
+  simp only [Cfg.paddedSizeY, Cfg.domainSize, Cfg.my, Cfg.ny, sz]; omega
 
-theorem sz_paddedSizeZ {α} (c : Cfg α) (h2d : c.dom.nelz = 0 → c.kz = 1) : sz c.paddedSizeZ = c.mz := by
-  unfold Cfg.paddedSizeZ Cfg.mz Cfg.nz sz
-  by_cases h : c.dom.nelz = 0
-  · have := h2d h
-    simp [Cfg.pz, this, h]
-  · omega
+theorem sz_paddedSizeZ {α} (c : Cfg α) : sz c.paddedSizeZ = c.mz := by
+  simp only [Cfg.paddedSizeZ, Cfg.domainSize, Cfg.mz, Cfg.nz, sz]; omega
 
-theorem pz_zero_or {α} (c : Cfg α) (h2d : c.dom.nelz = 0 → c.kz = 1) : c.pz = 0 ∨ c.domainSize 2 = c.nz := by
-  by_cases h : c.dom.nelz = 0
-  · left; simp [Cfg.pz, h2d h]
-  · right; show c.dom.nelz = sz c.dom.nelz; unfold sz; omega
+theorem pz_zero_or {α} (c : Cfg α) : c.pz = 0 ∨ c.domainSize 2 = c.nz := by
+  right; show max 1 c.dom.nelz = sz c.dom.nelz; unfold sz; rfl
 
 /-- the constructor boxes applied to `x[el3d_pad]` give the extended field -/
 theorem constrOverrides_eq_extField {α} (c : Cfg α) (x : Nat → α)
-    (hx : 1 ≤ c.dom.nelx) (hy : 1 ≤ c.dom.nely) (h2d : c.dom.nelz = 0 → c.kz = 1)
+    (hx : 1 ≤ c.dom.nelx) (hy : 1 ≤ c.dom.nely)
     (HX : ∀ q, q < c.nx + 2 * c.px → axisSrc c.xmin c.xmax c.nx c.px q =
         (match ext1 c.xmin c.xmax c.nx ((q : Int) - (c.px : Int)) with | .idx i => some i | .cst _ => none))
     (HY : ∀ q, q < c.ny + 2 * c.py → axisSrc c.ymin c.ymax c.ny c.py q =
@@ -197,7 +191,7 @@ theorem constrOverrides_eq_extField {α} (c : Cfg α) (x : Nat → α)
       extField c x ((a : Int) - c.px) ((b : Int) - c.py) ((cc : Int) - c.pz) := by
   have ha' : a < sz c.paddedSizeX := by rw [sz_paddedSizeX c hx]; exact ha
   have hb' : b < sz c.paddedSizeY := by rw [sz_paddedSizeY c hy]; exact hb
-  have hc' : cc < sz c.paddedSizeZ := by rw [sz_paddedSizeZ c h2d]; exact hcc
+  have hc' : cc < sz c.paddedSizeZ := by rw [sz_paddedSizeZ c]; exact hcc
   have ex : ∀ f : A3 α, Cfg.applyOverrides (faceBoxes c c.xmin c.xmax 0 c.px) f a b cc =
       (match ext1 c.xmin c.xmax c.nx ((a : Int) - (c.px : Int)) with
         | .cst v => v
@@ -212,7 +206,7 @@ theorem constrOverrides_eq_extField {α} (c : Cfg α) (x : Nat → α)
       (match ext1 c.zmin c.zmax c.nz ((cc : Int) - (c.pz : Int)) with
         | .cst v => v
         | .idx _ => f a b cc) := fun f =>
-    applyOverrides_faceBoxes c c.zmin c.zmax 2 c.pz c.nz f a b cc ha' hb' hc' hcc (pz_zero_or c h2d)
+    applyOverrides_faceBoxes c c.zmin c.zmax 2 c.pz c.nz f a b cc ha' hb' hc' hcc (pz_zero_or c)
   rw [padded_snd, applyOverrides_append, applyOverrides_append, ez, ey, ex, el3dPad_eq,
     HX a ha, HY b hb, HZ cc hcc]
   unfold extField
@@ -223,7 +217,7 @@ theorem constrOverrides_eq_extField {α} (c : Cfg α) (x : Nat → α)
 
 /-- general form: the user's `override_values` entries are applied on top of the extended field -/
 theorem paddedVector_eq_user_extField {α} (c : Cfg α) (x : Nat → α)
-    (hx : 1 ≤ c.dom.nelx) (hy : 1 ≤ c.dom.nely) (h2d : c.dom.nelz = 0 → c.kz = 1)
+    (hx : 1 ≤ c.dom.nelx) (hy : 1 ≤ c.dom.nely)
     (HX : ∀ q, q < c.nx + 2 * c.px → axisSrc c.xmin c.xmax c.nx c.px q =
         (match ext1 c.xmin c.xmax c.nx ((q : Int) - (c.px : Int)) with | .idx i => some i | .cst _ => none))
     (HY : ∀ q, q < c.ny + 2 * c.py → axisSrc c.ymin c.ymax c.ny c.py q =
@@ -237,10 +231,10 @@ theorem paddedVector_eq_user_extField {α} (c : Cfg α) (x : Nat → α)
   unfold Cfg.paddedVector Cfg.overrides
   rw [applyOverrides_append]
   apply applyOverrides_congr
-  exact constrOverrides_eq_extField c x hx hy h2d HX HY HZ a b cc ha hb hcc
+  exact constrOverrides_eq_extField c x hx hy HX HY HZ a b cc ha hb hcc
 
 theorem paddedVector_eq_extField {α} (c : Cfg α) (x : Nat → α)
-    (hx : 1 ≤ c.dom.nelx) (hy : 1 ≤ c.dom.nely) (h2d : c.dom.nelz = 0 → c.kz = 1) (huser : c.user = [])
+    (hx : 1 ≤ c.dom.nelx) (hy : 1 ≤ c.dom.nely) (huser : c.user = [])
     (HX : ∀ q, q < c.nx + 2 * c.px → axisSrc c.xmin c.xmax c.nx c.px q =
         (match ext1 c.xmin c.xmax c.nx ((q : Int) - (c.px : Int)) with | .idx i => some i | .cst _ => none))
     (HY : ∀ q, q < c.ny + 2 * c.py → axisSrc c.ymin c.ymax c.ny c.py q =
@@ -249,7 +243,7 @@ theorem paddedVector_eq_extField {α} (c : Cfg α) (x : Nat → α)
         (match ext1 c.zmin c.zmax c.nz ((q : Int) - (c.pz : Int)) with | .idx i => some i | .cst _ => none))
     (a b cc : Nat) (ha : a < c.mx) (hb : b < c.my) (hcc : cc < c.mz) :
     c.paddedVector x a b cc = extField c x ((a : Int) - c.px) ((b : Int) - c.py) ((cc : Int) - c.pz) := by
-  rw [paddedVector_eq_user_extField c x hx hy h2d HX HY HZ a b cc ha hb hcc, huser]
+  rw [paddedVector_eq_user_extField c x hx hy HX HY HZ a b cc ha hb hcc, huser]
   rfl
 
 /-! ## (e) scatter collapse and the response as a padded convolution -/
@@ -320,7 +314,7 @@ theorem scatterAdd3_elemNumber {α} [CommSemiring α] (c : Cfg α) (val : A3 α)
 
 /-- general form (user overrides on top of the extended field) -/
 theorem resp_eq_padded_convolution_user {α} [CommSemiring α] (c : Cfg α) (x : Nat → α)
-    (hx : 1 ≤ c.dom.nelx) (hy : 1 ≤ c.dom.nely) (h2d : c.dom.nelz = 0 → c.kz = 1)
+    (hx : 1 ≤ c.dom.nelx) (hy : 1 ≤ c.dom.nely)
     (HX : ∀ q, q < c.nx + 2 * c.px → axisSrc c.xmin c.xmax c.nx c.px q =
         (match ext1 c.xmin c.xmax c.nx ((q : Int) - (c.px : Int)) with | .idx i => some i | .cst _ => none))
     (HY : ∀ q, q < c.ny + 2 * c.py → axisSrc c.ymin c.ymax c.ny c.py q =
@@ -339,13 +333,13 @@ theorem resp_eq_padded_convolution_user {α} [CommSemiring α] (c : Cfg α) (x :
   unfold Cfg.convValid3
   apply sum3_congr
   intro a b cc ha hb hcc
-  rw [paddedVector_eq_user_extField c x hx hy h2d HX HY HZ]
+  rw [paddedVector_eq_user_extField c x hx hy HX HY HZ]
   · unfold Cfg.mx Cfg.px; omega
   · unfold Cfg.my Cfg.py; omega
   · unfold Cfg.mz Cfg.pz; omega
 
 theorem resp_eq_padded_convolution {α} [CommSemiring α] (c : Cfg α) (x : Nat → α)
-    (hx : 1 ≤ c.dom.nelx) (hy : 1 ≤ c.dom.nely) (h2d : c.dom.nelz = 0 → c.kz = 1) (huser : c.user = [])
+    (hx : 1 ≤ c.dom.nelx) (hy : 1 ≤ c.dom.nely) (huser : c.user = [])
     (HX : ∀ q, q < c.nx + 2 * c.px → axisSrc c.xmin c.xmax c.nx c.px q =
         (match ext1 c.xmin c.xmax c.nx ((q : Int) - (c.px : Int)) with | .idx i => some i | .cst _ => none))
     (HY : ∀ q, q < c.ny + 2 * c.py → axisSrc c.ymin c.ymax c.ny c.py q =
@@ -356,7 +350,7 @@ theorem resp_eq_padded_convolution {α} [CommSemiring α] (c : Cfg α) (x : Nat 
     c.resp x (c.dom.elemNumber i j k) =
       sum3 c.kx c.ky c.kz fun a b cc => c.w a b cc *
         extField c x ((i : Int) + c.px - a) ((j : Int) + c.py - b) ((k : Int) + c.pz - cc) := by
-  rw [resp_eq_padded_convolution_user c x hx hy h2d HX HY HZ hk i j k hi hj hkk, huser]
+  rw [resp_eq_padded_convolution_user c x hx hy HX HY HZ hk i j k hi hj hkk, huser]
   obtain ⟨hkx, hky, hkz⟩ := hk
   apply sum3_congr
   intro a b cc ha hb hcc
